@@ -418,8 +418,16 @@ pub fn evaluate(sc_cfg: &Config, defs: &[Def], world: &mut World, plan: &EvalPla
         finished_seen: false,
     };
 
+    // ---- misuse before the evaluation was started -------------------------------------------
+    for m in plan.misuse.iter().filter(|m| m.before_startup && m.call < 4) {
+        probe(&mut out.probes, "misuse_before_startup");
+        st.do_misuse(&mut eng, &mut out, m);
+        if st.fatal {
+            break;
+        }
+    }
     // ---- startup -------------------------------------------------------------------------
-    let r = eng.startup();
+    let r = if st.fatal { CallRes::Ok } else { eng.startup() };
     st.legal_result(&mut out, "event_startup", &r);
     if !st.fatal {
         st.observe(&mut eng, &mut out);
@@ -433,7 +441,7 @@ pub fn evaluate(sc_cfg: &Config, defs: &[Def], world: &mut World, plan: &EvalPla
     };
     let cap = (3 * n + 4) as u32;
     let mut misuse_i = 0usize;
-    let mut misuse_sorted = plan.misuse.clone();
+    let mut misuse_sorted: Vec<MisusePlan> = plan.misuse.iter().filter(|m| !(m.before_startup && m.call < 4)).cloned().collect();
     misuse_sorted.sort_by_key(|m| m.at);
 
     // ---- main loop -----------------------------------------------------------------------
